@@ -141,13 +141,11 @@ def check_generic_traversal(ctx: Ctx, env, cls_q: str, transformer: bool, rule: 
                 ctx.sample({"class": key, "visit_sequence": _visit_seq(paths[0]), "paths": len(paths)})
 
 
-def run(ctx: Ctx, env):
+def check_node_schema(ctx: Ctx, env):
+    """R1/R5: the AST classes are frozen dataclasses with generated, structural equality over all their fields, built as declared.
+    Shared with the rewriters (C14, C17), which look nodes up by equality."""
     repo, schema = env.repo, env.schema
-    if VISITOR not in repo.classes or TRANSFORMER not in repo.classes:
-        raise AnalysisError("NodeVisitor / NodeTransformer not found in odata_query/visitor.py")
-    vm = repo.modules["odata_query.visitor"]
     am = schema.module
-
     # ---- R1 / R5 schema ---------------------------------------------------------------------------------
     n_cls = 0
     for name, nc in schema.classes.items():
@@ -180,6 +178,17 @@ def run(ctx: Ctx, env):
     from .common import check_node_construction
     check_node_construction(ctx, env, "R5.constructed-as-declared", "trees that differ in the collapsed position compare equal, and "
                             "a transformer that rebuilds the node gets a different node back")
+
+
+
+def run(ctx: Ctx, env):
+    repo, schema = env.repo, env.schema
+    if VISITOR not in repo.classes or TRANSFORMER not in repo.classes:
+        raise AnalysisError("NodeVisitor / NodeTransformer not found in odata_query/visitor.py")
+    vm = repo.modules["odata_query.visitor"]
+    am = schema.module
+
+    check_node_schema(ctx, env)
 
     # ---- R2 / R3 generic traversals ----------------------------------------------------------------------------
     check_generic_traversal(ctx, env, VISITOR, False, "R2.visitor-traverses")
